@@ -3,6 +3,7 @@ import IxpeVerif.Model.Livetime
 import IxpeVerif.Model.EventList
 import IxpeVerif.Gen.Formulas
 import IxpeVerif.Model.Gti
+import IxpeVerif.Model.Select
 /-! Dispatcher of the hand-written models for the line-protocol driver.  Integers travel in decimal. -/
 namespace Driver
 
@@ -29,6 +30,29 @@ def pairsOf : List Int → List (Int × Int)
   | _ => []
 
 def unpairs (l : List (Int × Int)) : List Int := l.flatMap fun g => [g.1, g.2]
+
+/-- order-preserving map from (non-NaN) IEEE doubles, given by their bit pattern, to `Int` -/
+def key64 (bits : Int) : Int :=
+  let b := bits.toNat
+  if b ≥ 9223372036854775808 then -((b - 9223372036854775808 : Nat) : Int) else b
+def key32 (x : Float32) : Int :=
+  let b := x.toBits.toNat
+  if b ≥ 2147483648 then -((b - 2147483648 : Nat) : Int) else b
+def k32 (bits : Int) : Int := key32 (fbits bits).toFloat32
+/-- energy attributed to a PI channel: the *generated* `channel_to_energy` evaluated in float32, as numpy 2 does on the
+float32 PI column -/
+def piKey (pi : Int) : Int := key32 (Gen.channel_to_energy (α := Float32) (Float32.ofNat pi.toNat))
+
+def optOf (f : Int → Int) (w : String) : Option Int := if w == "N" then none else some (f w.toInt!)
+
+def selRows : List Int → List Sel.Row
+  | t :: p :: pi :: me :: s :: ms :: ir :: mir :: src :: tag :: rest =>
+    ⟨key64 t, k32 p, piKey pi, k32 me, key64 s, key64 ms, ir != 0, mir != 0, src, tag.toNat⟩ :: selRows rest
+  | _ => []
+
+def errCode : Sel.Err → String
+  | .timeAndPhase => "timeAndPhase" | .coneAndReg => "coneAndReg" | .tminOut => "tminOut" | .tmaxOut => "tmaxOut"
+  | .tminGeTmax => "tminGeTmax" | .pminOut => "pminOut" | .pmaxOut => "pmaxOut" | .pminGePmax => "pminGePmax"
 
 def rowsOf : List Int → List EvL.Row
   | t :: s :: f :: g :: rest => ⟨t, s, f != 0, g.toNat⟩ :: rowsOf rest
@@ -79,6 +103,19 @@ def step (ws : List String) : String :=
   | "bingti" :: a :: b :: rest =>
     let (g, _) := takeN rest
     showInts [Gti.binGti a.toInt! b.toInt! (pairsOf (ints g))]
+  -- select tmin tmax tinv pmin pmax pinv emin emax einv mc rad innerrad useReg reginv tstart tstop <k> srcids… <10n> rows…
+  | "select" :: tmin :: tmax :: tinv :: pmin :: pmax :: pinv :: emin :: emax :: einv :: mc :: rad :: irad :: ur :: ri :: ts :: te :: rest =>
+    let (src, rest) := takeN rest
+    let (rows, _) := takeN rest
+    let c : Sel.Cfg := { tmin := optOf key64 tmin, tmax := optOf key64 tmax, tinvert := tinv == "1",
+                         pmin := optOf k32 pmin, pmax := optOf k32 pmax, pinvert := pinv == "1",
+                         emin := optOf k32 emin, emax := optOf k32 emax, einvert := einv == "1", mc := mc == "1",
+                         rad := optOf key64 rad, innerrad := optOf key64 irad, useReg := ur == "1", reginvert := ri == "1",
+                         srcids := ints src }
+    match Sel.validate c (key64 ts.toInt!) (key64 te.toInt!) (key32 (0.0 : Float).toFloat32) (key32 (1.0 : Float).toFloat32) with
+    | some e => "err " ++ errCode e
+    | none => "ok " ++ showInts ((Sel.select c (selRows (ints rows))).map fun r => (r.tag : Int))
+  | ["pikey", pi] => showInts [piKey pi.toInt!]
   | ["split", t] => let r := EvL.splitTime t.toInt!; showInts [r.1, r.2]
   | _ => "bad-op"
 
